@@ -4,3 +4,15 @@ import PhyloModel.Props.C02
 #print axioms C02.labels_ok
 #print axioms C02.normal_form
 #print axioms C02.reject_unbalanced
+#print axioms C02.labels_ok_all
+#print axioms C02.normal_form_all
+#print axioms C02.reject_unbalanced_all
+#print axioms C02.reject_unbalanced_all'
+#print axioms C02.reject_unbalanced_exact
+#print axioms C02.reject_quote_in_length
+#print axioms C02.reject_quote_in_length_err
+#print axioms C02.reject_unbalanced_again
+#print axioms C02.reject_unbalanced_float
+#print axioms C02.pq_refusing
+#print axioms C02.old_witnesses_rejected
+#print axioms C02.hpl_needed
